@@ -20,8 +20,8 @@ from . import env, known
 from .core import Choices, Sim, StopRun, HarnessError, splitmix64
 
 ROOT = os.path.dirname(os.path.dirname(os.path.abspath(__file__)))
-EVIDENCE_DIR = os.path.join(ROOT, 'evidence')
-REPLAY_DIR = os.path.join(ROOT, 'replays')
+EVIDENCE_DIR = os.environ.get('TXSIM_EVIDENCE_DIR') or os.path.join(ROOT, 'evidence')
+REPLAY_DIR = os.environ.get('TXSIM_REPLAY_DIR') or os.path.join(ROOT, 'replays')
 
 
 def _scenario(name):
